@@ -451,7 +451,9 @@ macro_rules! impl_cache_processor {
                         cost,
                         external_cost,
                     } => {
-                        let cost = self.calculate_internal_cost(cost) + external_cost;
+                        let cost = self
+                            .calculate_internal_cost(cost)
+                            .saturating_add(external_cost);
                         self.policy.update(&key, cost);
 
                         Ok(())
@@ -480,8 +482,9 @@ macro_rules! impl_cache_processor {
             #[inline]
             fn calculate_internal_cost(&self, cost: i64) -> i64 {
                 if !self.ignore_internal_cost {
-                    // Add the cost of internally storing the object.
-                    cost + (self.item_size as i64)
+                    // Add the cost of internally storing the object (a cost close to i64::MAX
+                    // must not wrap around into a negative charge).
+                    cost.saturating_add(self.item_size as i64)
                 } else {
                     cost
                 }
